@@ -80,3 +80,9 @@ package prelude
 //@   modifies ghost.idxCalls, ghost.idxLast
 //@   ensures result == -1 || (0 <= result && result < len(arg0))
 //@   ensures ghost.idxCalls == old(ghost.idxCalls) + 1 && ghost.idxLast == result
+
+// crypto/elliptic.Marshal: the uncompressed form 0x04 || X || Y - a function of
+// curve and both coordinates, at least one byte long.
+//@ spec func uncompressedOf(curve ref, x ref, y ref) []byte
+//@ assume func crypto/elliptic.Marshal
+//@   ensures result == @uncompressedOf(arg0, arg1, arg2) && len(result) >= 1
